@@ -229,3 +229,56 @@ func Area2(ring []P) R {
 	}
 	return s
 }
+
+// ---- integer versions (coordinates pre-scaled to integers), used in hot loops ----
+
+// IP is an integer point.
+type IP [2]int64
+
+func crossI(a, b, c IP) int64 { return (b[0]-a[0])*(c[1]-a[1]) - (b[1]-a[1])*(c[0]-a[0]) }
+
+// OnSegmentI reports whether p lies on the closed segment ab.
+func OnSegmentI(a, b, p IP) bool {
+	if crossI(a, b, p) != 0 {
+		return false
+	}
+	return min(a[0], b[0]) <= p[0] && p[0] <= max(a[0], b[0]) && min(a[1], b[1]) <= p[1] && p[1] <= max(a[1], b[1])
+}
+
+// InRingI is the exact even-odd test on an implicitly closed vertex list (an
+// explicit closing vertex is harmless: it adds a degenerate edge).
+func InRingI(ring []IP, p IP) (inside, boundary bool) {
+	n := len(ring)
+	if n == 0 {
+		return false, false
+	}
+	in := false
+	for i := 0; i < n; i++ {
+		a, b := ring[i], ring[(i+1)%n]
+		if OnSegmentI(a, b, p) {
+			return false, true
+		}
+		if (a[1] > p[1]) != (b[1] > p[1]) {
+			c := crossI(a, b, p)
+			if b[1] > a[1] {
+				if c > 0 {
+					in = !in
+				}
+			} else if c < 0 {
+				in = !in
+			}
+		}
+	}
+	return in, false
+}
+
+// Area2I is twice the signed shoelace area of the implicitly closed list.
+func Area2I(ring []IP) int64 {
+	var s int64
+	n := len(ring)
+	for i := 0; i < n; i++ {
+		a, b := ring[i], ring[(i+1)%n]
+		s += a[0]*b[1] - b[0]*a[1]
+	}
+	return s
+}
